@@ -52,13 +52,13 @@ theorem newDT_LR_all :
     cases h
     simp only [LR]; exact ih el hc
   case case38 =>
-    intro path ename kf vf enl emd sorted nl md ihk ihv b h
+    intro path ename kf vf emd sorted nl md ihk ihv b h
     simp only [newDT] at h
     obtain ⟨kb, hk, h⟩ := (bind_ok _ _ _).1 h
     obtain ⟨vb, hv, h⟩ := (bind_ok _ _ _).1 h
     cases h
     simp only [LR]; exact ⟨ihk kb hk, ihv vb hv⟩
-  case case42 =>
+  case case43 =>
     intro path fs nl md ih b h
     simp only [newDT] at h
     obtain ⟨bl, hf, h⟩ := (bind_ok _ _ _).1 h
@@ -66,37 +66,37 @@ theorem newDT_LR_all :
     split at h
     · cases h
     · cases h; simp only [LR]; exact ih bl hf
-  case case43 =>
+  case case44 =>
     intro path k v nl md hint ihk ihv b h
     simp only [newDT, hint, if_true] at h
     obtain ⟨kb, hk, h⟩ := (bind_ok _ _ _).1 h
     obtain ⟨vb, hv, h⟩ := (bind_ok _ _ _).1 h
     cases h
     simp only [LR]; exact ⟨ihk kb hk, ihv vb hv⟩
-  case case45 =>
-    intro path fs mode nl md ih b h
+  case case46 =>
+    intro path fs nl md ih b h
     simp only [newDT] at h
     obtain ⟨bl, hf, h⟩ := (bind_ok _ _ _).1 h
     cases h
     simp only [LR]; exact ih bl hf
-  case case48 =>
+  case case50 =>
     intro path name dt nl md ih b h
     simp only [newB] at h
     exact ih b h
-  case case49 =>
+  case case51 =>
     intro path bl h
     simp only [newFields] at h; cases h; trivial
-  case case50 =>
+  case case52 =>
     intro path f rest ihf ihr bl h
     simp only [newFields] at h
     obtain ⟨b, hb, h⟩ := (bind_ok _ _ _).1 h
     obtain ⟨r, hr, h⟩ := (bind_ok _ _ _).1 h
     cases h
     simp only [LRL]; exact ⟨ihf b hb, ihr r hr⟩
-  case case51 =>
+  case case53 =>
     intro path k bl h
     simp only [newUnionFields] at h; cases h; trivial
-  case case53 =>
+  case case55 =>
     intro path tid f rest idx hne ihf ihr bl h
     simp only [newUnionFields, hne] at h
     obtain ⟨b, hb, h⟩ := (bind_ok _ _ _).1 h
